@@ -66,11 +66,34 @@ def run_miri():
         res.update(ran=False, note="miri did not run to completion (exit %d): %s" % (p.returncode, out[-300:]))
     return res
 
+def run_stress():
+    """Stage D (auxiliary, sampled schedules): native threads on real cores - a hot loop of queries over a shared pool of
+    states and rounds of full expansion of fresh states, every observation compared with the sequential one."""
+    secs = 20 if thorough else 4
+    env = dict(os.environ, CARGO_TARGET_DIR=os.path.join(V, "target", "mirih-native"), CARGO_NET_OFFLINE="true")
+    t0 = time.time()
+    try:
+        b = subprocess.run(["cargo", "build", "--release", "--offline"], cwd=os.path.join(V, "mirih"), env=env, capture_output=True, text=True, timeout=600)
+        if b.returncode != 0:
+            return {"ran": False, "note": "native build of the std-thread harness failed: %s" % (b.stderr[-300:])}
+        p = subprocess.run([os.path.join(V, "target", "mirih-native", "release", "mirih"), "stress", str(secs)], capture_output=True, text=True, timeout=secs * 10 + 120)
+    except subprocess.TimeoutExpired:
+        return {"ran": False, "note": "timeout"}
+    out = p.stdout + p.stderr
+    res = {"ran": True, "seconds": secs, "wall_s": round(time.time() - t0, 1), "summary": (p.stdout.strip().splitlines() or [""])[-1][:200]}
+    if "MIRIH-STRESS:" in out:
+        res.update(violation=True, message=" | ".join(l for l in out.splitlines() if "MIRIH-STRESS:" in l)[:800])
+    elif p.returncode != 0:
+        res.update(violation=True, message="the stress process died (exit %s): %s" % (p.returncode, out[-400:]))
+    return res
+
 t0 = time.time()
 with ThreadPoolExecutor(max_workers=8) as ex:
     miri_future = ex.submit(run_miri)
     results = list(ex.map(run, jobs))
     miri = miri_future.result()
+# stage D runs after the loom bodies (it wants the cores for itself)
+stress = run_stress()
 table, viol, capped = [], [], []
 execs = calls = 0
 for job, rc, out, err, wall in results:
@@ -107,25 +130,27 @@ cov = {
     "instrumentation": subs,
     "stage_B_vacuous": vac,
     "stage_C_miri_auxiliary_sampled": miri,
+    "stage_D_native_stress_auxiliary_sampled": stress,
 }
-if miri.get("violation"):
-    viol_count_extra = 1
-else:
-    viol_count_extra = 0
+viol_count_extra = (1 if miri.get("violation") else 0) + (1 if stress.get("violation") else 0)
 write_evidence(tier, cov, time.time() - t0, len(viol) + viol_count_extra, ASSUME)
 print("C18 %s: executions=%d engine_calls=%d substituted_sites=%d bodies=%d wall=%.1fs" % (tier, execs, calls, subs["total"], len(table), time.time() - t0))
 if NO_LOOM:
-    print("NOTE: the instrumented copy does not build under loom (the tree uses a std::sync API that loom 0.7.2 + vendor shims do not model; see target/build-loomh.log) - stage B was NOT run; the verdict rests on stage A (type checker) and stage C (Miri) only")
+    print("NOTE: the instrumented copy does not build under loom (the tree uses a std::sync API that loom 0.7.2 + vendor shims do not model; see target/build-loomh.log) - stage B was NOT run; the verdict rests on stage A (type checker) and the sampled stages C (Miri) and D (native stress) only")
 elif vac:
     print("NOTE: 0 std::sync/std::thread sites were substituted - stage B is vacuous by construction; verdict rests on stage A")
 if miri.get("violation"):
     viol.append({"body": "stage C (Miri, std threads)", "threads": 3, "preemption_bound": "n/a", "message": miri.get("message", "")})
 if not miri.get("ran"):
     print("NOTE: stage C (Miri, auxiliary) did not run: %s" % miri.get("note"))
+if stress.get("violation"):
+    viol.append({"body": "stage D (native threads, stress)", "threads": 12, "preemption_bound": "n/a", "message": stress.get("message", "")})
+if not stress.get("ran"):
+    print("NOTE: stage D (native stress, auxiliary) did not run: %s" % stress.get("note"))
 if viol:
     os.makedirs(os.path.join(V, "violations"), exist_ok=True)
     path = os.path.join(V, "violations", "C18-0.json")
-    json.dump({"property": "C18", "failed_bodies": viol, "replay": ("%s run %s %s %s" % (exe, viol[0]["body"], viol[0]["threads"], viol[0]["preemption_bound"])) if viol[0]["body"].startswith("B") else "cd /verif/mirih && CARGO_TARGET_DIR=/verif/target/mirih MIRIFLAGS='-Zmiri-disable-isolation -Zmiri-ignore-leaks' cargo +nightly miri run --offline"}, open(path, "w"), indent=1)
+    json.dump({"property": "C18", "failed_bodies": viol, "replay": ("%s run %s %s %s" % (exe, viol[0]["body"], viol[0]["threads"], viol[0]["preemption_bound"])) if viol[0]["body"].startswith("B") else "/verif/target/mirih-native/release/mirih stress 4   (sampled schedules: repeat if it passes)" if viol[0]["body"].startswith("stage D") else "cd /verif/mirih && CARGO_TARGET_DIR=/verif/target/mirih MIRIFLAGS='-Zmiri-disable-isolation -Zmiri-ignore-leaks' cargo +nightly miri run --offline"}, open(path, "w"), indent=1)
     print("VIOLATION property=C18 replay=%s" % path)
     for v in viol:
         print("  body %s threads=%s bound=%s: %s" % (v["body"], v["threads"], v["preemption_bound"], v["message"]))
